@@ -181,11 +181,19 @@ def run_scenario(arg):
         base = os.path.join(work, "fs")
         os.makedirs(base)
         target = os.path.join(base, "t.zip" if store == "zip" else "t")
+        # the zip store appends ".zip" to a path that lacks it (documented): half of the zip scenarios
+        # pass the bare path; the real target is still t.zip and the bare path "t" holds an unrelated
+        # directory-store object that no save may touch
+        bare = store == "zip" and idx % 2 == 1
+        save_path = os.path.join(base, "t") if bare else target
         sibling = os.path.join(base, "sibling")
         with contextlib.redirect_stdout(io.StringIO()):
             make_obj(101, 1).save(sibling, store="dir")
             make_obj(101, 0).save(os.path.join(base, "sib2.zip"), store="zip")
         open(os.path.join(base, "t.bak"), "w").write("neighbour")
+        if bare:
+            with contextlib.redirect_stdout(io.StringIO()):
+                make_obj(102, 0).save(os.path.join(base, "t"), store="dir")
         counts = count_boundaries(shape_id, store, work)
         completed = {}                      # ident -> shape_id of complete objects that exist
         # initial target as the model's first begin event says
@@ -201,7 +209,10 @@ def run_scenario(arg):
                 make_obj(100, shape_id).save(os.path.join(base, "seed.zip"), store="zip")
                 os.rename(os.path.join(base, "seed.zip"), target)
                 completed[100] = shape_id
-        sib_hash = tree_hash(sibling), tree_hash(os.path.join(base, "sib2.zip"))
+        def sib_state(root):
+            return (tree_hash(os.path.join(root, "sibling")), tree_hash(os.path.join(root, "sib2.zip")),
+                    tree_hash(os.path.join(root, "t")) if bare else "")
+        sib_hash = sib_state(base)
         ident = 0
         i = 0
         while i < len(events):
@@ -224,12 +235,13 @@ def run_scenario(arg):
                     tgt = os.path.join(scratch, os.path.basename(target))
                 else:
                     scratch, tgt = None, target
+                spath = os.path.join(os.path.dirname(tgt), "t") if bare else tgt
                 inj = Injector()
                 inj.fail = fault
                 raised = None
                 try:
                     with injection(inj), contextlib.redirect_stdout(io.StringIO()):
-                        make_obj(ident, shape_id).save(tgt, mode=mode, store=store)
+                        make_obj(ident, shape_id).save(spath, mode=mode, store=store)
                 except Injected as ex:
                     raised = ex
                 except FileExistsError as ex:
@@ -237,7 +249,7 @@ def run_scenario(arg):
                 except Exception as ex:  # noqa: BLE001
                     raised = ex
                 quiesce()
-                tag = f"[{store}:{mode}:{res['ev']}@{res['at']}:{fault} was={beg['ev'][6:]} shape={shape_id}]"
+                tag = f"[{store}{'(bare path)' if bare else ''}:{mode}:{res['ev']}@{res['at']}:{fault} was={beg['ev'][6:]} shape={shape_id}]"
                 after = tree_hash(tgt)
                 if res["ev"] == "exists":
                     if not isinstance(raised, FileExistsError):
@@ -285,10 +297,9 @@ def run_scenario(arg):
                         completed = {k: v for k, v in completed.items() if k != 100 and k != ident - 1}
                 # other paths untouched, temporaries gone
                 root = scratch if scratch else base
-                if (tree_hash(os.path.join(root, "sibling")), tree_hash(os.path.join(root, "sib2.zip"))) != sib_hash \
-                        or open(os.path.join(root, "t.bak")).read() != "neighbour":
+                if sib_state(root) != sib_hash or open(os.path.join(root, "t.bak")).read() != "neighbour":
                     problems.append(("sibling-modified", f"{tag} a path other than the target was modified"))
-                extra = sorted(set(os.listdir(root)) - {"sibling", "sib2.zip", "t.bak", os.path.basename(target)})
+                extra = sorted(set(os.listdir(root)) - {"sibling", "sib2.zip", "t.bak", os.path.basename(target)} - ({"t"} if bare else set()))
                 if extra:
                     problems.append(("stray-paths", f"{tag} save created other paths: {extra}"))
                 if os.listdir(tdir):
